@@ -665,12 +665,12 @@ def run(ctx):
     if uexe:
         ok = run_unit(ctx, uexe, load_corpus()[0] + CORPUS_UNIT, "corpus")
         if ok:
-            ok = run_unit(ctx, uexe, unit_batches(rng, ctx.scale(12000, 240000)), "generated")
+            ok = run_unit(ctx, uexe, unit_batches(rng, ctx.scale(12000, 150000)), "generated")
         ctx.sample({"fsbuf": gen_write_case(SplitMix(ctx.seed), 4)})
     ctx.log("unit correspondence done")
     if rexe:
         t0 = time.time()
-        budget = ctx.scale(28, 600)
+        budget = ctx.scale(28, 400)
         progs = [(p, 4) for p in load_corpus()[1] + CORPUS_ROUTES]
         n = 0
         while ok:
